@@ -197,6 +197,10 @@ type ReferenceScope struct {
 	RecursiveTable   *parser.InlineTable
 	RecursiveTmpView *View
 	RecursiveCount   *int64
+
+	// recursionRoot marks the query scope of a recursive table's own query: only the set operator of that query
+	// is the recursion, set operators in sub-queries of its members are ordinary ones. Not inherited.
+	recursionRoot bool
 }
 
 func NewReferenceScope(tx *Transaction) *ReferenceScope {
